@@ -254,16 +254,22 @@ impl Suite for ArenaConc {
             let mut scheds = vec![];
             all_schedules(&counts, &mut scheds, &mut vec![], &mut counts.iter().map(|c| c.1).collect());
             for sched in scheds {
-                nonce += 1;
-                let mut lines = vec![];
-                for (t, ds) in shape.iter().enumerate() {
-                    for d in ds {
-                        let site = Site { is_span: true, level: 2, name: format!("conc{nonce}-{d}"), target: "app".into(), module_path: None, file: None, line: None, fields: vec!["shared".into(), format!("f{d}")] };
-                        lines.push(format!("t {t} {}", site.tok()));
+                for weak in [false, true] {
+                    nonce += 1;
+                    let mut lines = vec![];
+                    if weak {
+                        lines.push("weakhash".into());
                     }
+                    for (t, ds) in shape.iter().enumerate() {
+                        for d in ds {
+                            let name = if weak { format!("wconc{nonce}-{d}") } else { format!("conc{nonce}-{d}") };
+                            let site = Site { is_span: true, level: 2, name, target: "app".into(), module_path: None, file: None, line: None, fields: vec!["shared".into(), format!("f{d}")] };
+                            lines.push(format!("t {t} {}", site.tok()));
+                        }
+                    }
+                    lines.push(format!("sched {}", sched.iter().map(ToString::to_string).collect::<Vec<_>>().join(" ")));
+                    out.push(lines);
                 }
-                lines.push(format!("sched {}", sched.iter().map(ToString::to_string).collect::<Vec<_>>().join(" ")));
-                out.push(lines);
             }
         }
         out
@@ -272,14 +278,21 @@ impl Suite for ArenaConc {
     fn gen(&self, rng: &mut Rng, tier: Tier, idx: usize, _focus: &str) -> Vec<String> {
         let mut lines = vec![];
         if idx % 10 == 9 {
+            if rng.chance(1, 2) {
+                lines.push("weakhash".into());
+            }
             lines.push(format!("stress {} {} {}", rng.range(2, 16), if tier == Tier::Quick { 20 } else { 200 }, rng.next() % 100_000));
             return lines;
         }
         let n_threads = rng.range(2, 4);
         let nonce = rng.next() % 1_000_000;
+        let weak = rng.chance(1, 2);
+        if weak {
+            lines.push("weakhash".into());
+        }
         let pool: Vec<Site> = (0..3).map(|d| {
             let mut s = gen::site(rng, None, 3);
-            s.name = format!("r{nonce}-{d}");
+            s.name = if weak { format!("w{nonce}-{d}") } else { format!("r{nonce}-{d}") };
             s
         }).collect();
         let mut total = vec![];
@@ -302,7 +315,25 @@ impl Suite for ArenaConc {
     }
 
     fn run(&self, lines: &[String]) -> Outcome {
+        // `weakhash`: for the duration of the case every description hashes to the same bucket
+        // (cfg hook), so that `eq_metadata` and the bucket-tail re-scan decide alone; such cases use
+        // descriptions that never occur without the switch
+        struct WeakHash;
+        impl Drop for WeakHash {
+            fn drop(&mut self) {
+                tracing_tunnel::verif::verif_set_weak_hash(false);
+            }
+        }
+        let _guard = if lines.iter().any(|l| l == "weakhash") {
+            tracing_tunnel::verif::verif_set_weak_hash(true);
+            Some(WeakHash)
+        } else {
+            None
+        };
         let mut out = Outcome::default();
+        if _guard.is_some() {
+            out.tags.push("weakhash".into());
+        }
         let mut work: Vec<(usize, Vec<Site>)> = vec![];
         for line in lines {
             let mut t = Toks::new(line);
@@ -371,9 +402,10 @@ impl Suite for ArenaConc {
                 }
                 Some("stress") => {
                     let (n, m, nonce): (usize, usize, u64) = (t.num().unwrap_or(4), t.num().unwrap_or(20), t.num().unwrap_or(0));
-                    let pool: Vec<Site> = (0..6).map(|d| Site { is_span: d % 2 == 0, level: (d % 5) as u8, name: format!("stress{nonce}-{d}"), target: "app::stress".into(), module_path: Some("shared".into()), file: None, line: None, fields: vec!["shared".into()] }).collect();
+                    let pool: Vec<Site> = (0..6).map(|d| Site { is_span: d % 2 == 0, level: (d % 5) as u8, name: format!("{}stress{nonce}-{d}", if _guard.is_some() { "w" } else { "" }), target: "app::stress".into(), module_path: Some("shared".into()), file: None, line: None, fields: vec!["shared".into()] }).collect();
                     stress(n, m, &pool, &mut out);
                 }
+                Some("weakhash") => {}
                 _ => out.obs.push("bad-op".into()),
             }
         }
